@@ -32,3 +32,35 @@ def allowed(vt, pt, has_default, pos_default):
     return compat(v, l)
 
 
+
+
+# ---- SDL: object field type vs interface field type (June 2018 §3.6, IsValidImplementationFieldType) -------------
+def wrap(base, bits):
+    t = base + ("!" if bits & 1 else "")
+    if bits & 2:
+        t = "[" + t + "]" + ("!" if bits & 4 else "")
+    return t
+
+
+def parse(t):
+    if t.endswith("!"):
+        return ("NN", parse(t[:-1]))
+    if t.startswith("["):
+        return ("LIST", parse(t[1:-1]))
+    return t
+
+
+SUBTYPE = {("A", "N"), ("A", "U")}       # object A implements interface N and is a member of union U
+
+
+def valid_impl_field_type(f, i):
+    """June 2018 §3.6 IsValidImplementationFieldType"""
+    if isinstance(f, tuple) and f[0] == "NN":
+        return valid_impl_field_type(f[1], i[1] if isinstance(i, tuple) and i[0] == "NN" else i)
+    if isinstance(f, tuple) and f[0] == "LIST" and isinstance(i, tuple) and i[0] == "LIST":
+        return valid_impl_field_type(f[1], i[1])
+    if f == i:
+        return True
+    return (f, i) in SUBTYPE
+
+
